@@ -1,6 +1,7 @@
 (* C18 — nsqadmin's cluster view equals the sum of its parts.  Property theorems only. *)
 From Coq Require Import String List ZArith NArith Bool.
-From NSQV Require Import model.Judge model.Cluster proofs.ClusterProofs.
+From Coq Require Import Permutation.
+From NSQV Require Import model.Judge model.Cluster gen.ClusterTables proofs.ClusterProofs.
 Import ListNotations.
 Open Scope list_scope.
 Open Scope Z_scope.
@@ -180,6 +181,51 @@ Theorem C18_topic_view_spec : forall producers stats_of t,
   end.
 Proof. exact topic_view_spec. Qed.
 Print Assumptions C18_topic_view_spec.
+
+(* ---- the order in which the upstreams answer does not matter (the code merges each answer under
+   a lock in the completion order of its fetch goroutines: a permutation of the upstream list) *)
+Theorem C18_order_independent_channels : forall ups ups' sel k, Permutation ups ups' ->
+  match cmap_find k (snd (stats_value ups sel)), cmap_find k (snd (stats_value ups' sel)) with
+  | Some v, Some v' =>
+      (forall f, In f cfields -> f (ca_num v) = f (ca_num v')) /\ ca_paused v = ca_paused v' /\
+      Permutation (ca_nodes v) (ca_nodes v') /\ Permutation (ca_clients v) (ca_clients v')
+  | None, None => True
+  | _, _ => False
+  end.
+Proof. exact channel_sums_order_independent. Qed.
+Print Assumptions C18_order_independent_channels.
+
+Theorem C18_order_independent_topic : forall nodes nodes', Permutation nodes nodes' ->
+  (forall f, In f tfields -> f (ta_num (tagg_of nodes)) = f (ta_num (tagg_of nodes'))) /\
+  ta_paused (tagg_of nodes) = ta_paused (tagg_of nodes') /\
+  Permutation (ta_nodes (tagg_of nodes)) (ta_nodes (tagg_of nodes')).
+Proof. exact topic_sums_order_independent. Qed.
+Print Assumptions C18_order_independent_topic.
+
+(* ---- the source shapes the model was written against, regenerated on every run
+   (gen/ClusterTables.v): what TopicStats.Add / ChannelStats.Add sum and how they treat Paused
+   and nil clients; the len(errs) rule of every Get*; the nil guards; the tombstone pairing *)
+Theorem C18_source_shapes :
+  (topic_add_fields = ["Depth"; "MemoryDepth"; "BackendDepth"; "MessageCount"; "DeliveryMsgCount";
+                       "ZoneLocalMsgCount"; "RegionLocalMsgCount"; "GlobalMsgCount"]%string /\
+   topic_add_other = ["if a.Paused"; "t.Paused = a.Paused"]%string /\
+   length topic_add_fields = length tfields) /\
+  (channel_add_fields = ["Depth"; "MemoryDepth"; "BackendDepth"; "InFlightCount"; "DeferredCount"; "RequeueCount";
+                         "TimeoutCount"; "MessageCount"; "DeliveryMsgCount"; "ZoneLocalMsgCount"; "RegionLocalMsgCount";
+                         "GlobalMsgCount"; "ClientCount"]%string /\
+   channel_add_other = ["if a.Paused"; "c.Paused = a.Paused"]%string /\
+   channel_add_clients = ["if c.E2eProcessingLatency == nil"; "if client != nil"; "c.Clients = append(c.Clients, client)"]%string /\
+   length channel_add_fields = length cfields) /\
+  (forallb get_rule_ok ci_error_rules = true /\
+   map fst (filter (fun e => Nat.eqb (length (snd e)) 2) ci_error_rules) =
+   ["GetLookupdProducers"; "GetLookupdTopicChannels"; "GetLookupdTopicProducers"; "GetLookupdTopics";
+    "GetNSQDProducers"; "GetNSQDStats"; "GetNSQDTopicProducers"; "GetNSQDTopics"]%string) /\
+  (ci_nil_guards = [("GetLookupdProducers", ["producer == nil"]); ("GetLookupdTopicProducers", ["p == nil"]);
+                    ("GetNSQDStats", ["topic == nil"; "channel == nil"; "c == nil"])]%string /\
+   quantile_nil_guards = ["UnmarshalJSON: p == nil => continue"; "Add: e2 == nil => return"]%string /\
+   producer_tombstone_exprs = ["i < len(r.Tombstoned) && r.Tombstoned[i]"; "Tombstoned: tombstoned"]%string).
+Proof. exact (conj topic_add_shape_current (conj channel_add_shape_current (conj error_rules_current nil_guards_current))). Qed.
+Print Assumptions C18_source_shapes.
 
 (* ------------------------------------------------------------------ non-vacuity *)
 Definition b (s : list N) : bytes := s.
